@@ -351,6 +351,29 @@ def run(rep, br, proofs, rng, tier):
                 stats["agree_value" if m.startswith("(ok") else "agree_error"] += 1
     expr_compiler_cases(rng, tier, fails, dis, stats)
     stmt_compiler_cases(rng, tier, fails, dis, stats)
+    # forms outside the interpreter's fragment with the value the documented rules give (catch identifiers:
+    # one variable per execution of the clause, like any declaration)
+    loop = 'out := []\nfor f in fns { out = append(out, f()) }\nreturn out\n'
+    FIXED = [("catch-var-per-iteration",
+              'fns := []\nfor i := 0; i < 3; i++ { try { throw string(i) } catch e { fns = append(fns, func() { return e.Message }) } }\n' + loop,
+              "(ok (a (s x30) (s x31) (s x32)))", "D02c", "(ok (a (s x32) (s x32) (s x32)))"),
+             ("catch-var-copied-per-iteration",
+              'fns := []\nfor i := 0; i < 3; i++ { try { throw string(i) } catch e { j := e.Message; fns = append(fns, func() { return j }) } }\n' + loop,
+              "(ok (a (s x30) (s x31) (s x32)))", None, None),
+             ("catch-var-in-function-calls",
+              'fns := []\nmk := func(i) { try { throw string(i) } catch e { return func() { return e.Message } } }\nfor i := 0; i < 3; i++ { fns = append(fns, mk(i)) }\n' + loop,
+              "(ok (a (s x30) (s x31) (s x32)))", None, None)]
+    fcases = [mk_case("k%d.%s" % (i, m), "run02", m, hexs(src)) for i, (_, src, _, _, _) in enumerate(FIXED) for m in ("opt", "noopt")]
+    fimpl, _ = vlib.run_impl([c["line"] for c in fcases], timeout=300)
+    known = {k["id"] for k in vlib.load_known("C02")}
+    for i, (name, src, want, fid, wrong) in enumerate(FIXED):
+        for m in ("opt", "noopt"):
+            got = fimpl.get("k%d.%s" % (i, m))
+            if got == want: continue
+            if fid and fid in known and got == wrong:
+                rep.known(fid, "a closure made in a catch clause captures the catch identifier; when the clause runs again in the same activation the closure sees the later error (program %s returns [2, 2, 2] for [0, 1, 2])" % name)
+                continue
+            fails.append((src, "%s (%s run): returns %s, the documented rules give %s" % (name, "optimised" if m == "opt" else "unoptimised", str(got)[:300], want)))
     if stats["compile_error"] > n // 20 or stats["fuel"] > n // 5:
         dis.append(("", "generator health: %d programs do not compile, %d exceed the interpreter's fuel" % (stats["compile_error"], stats["fuel"])))
     for src, why in fails[:10]:
